@@ -182,6 +182,8 @@ def type_class(t: str) -> str:
         return 'ptrvec'
     if re.match(r'std::vector<std::pair<(long|ssize_t), ?(long|ssize_t)>', t):
         return 'pairvec'
+    if re.match(r'std::vector<std::pair<(pybind11|py)::object, ?(long|ssize_t)>', t):
+        return 'objintvec'
     if re.match(r'std::vector<(long|ssize_t|pybind11::ssize_t)', t):
         return 'intvec'
     if re.match(r'std::vector<(pybind11|py)::', t):
@@ -470,6 +472,9 @@ class Engine:
             if isinstance(vec, ScalarVec):
                 v = z3.Select(vec.arr, p[2])
                 return PyObj(v) if vec.sort == Ref else v
+            if isinstance(vec, PairVec):
+                a, b = z3.Select(vec.a, p[2]), z3.Select(vec.b, p[2])
+                return Tup((PyObj(a) if a.sort() == Ref else a, PyObj(b) if b.sort() == Ref else b))
             if isinstance(vec, PtrVec):
                 key = p[2].sexpr()
                 for k, _, ptr in vec.entries:
@@ -693,6 +698,12 @@ class Engine:
         if op == '+' and (isinstance(a, Opaque) or isinstance(b, Opaque) or (is_z3(a) and a.sort() == Str)
                           or (is_z3(b) and b.sort() == Str)):
             return Opaque('str')          # string concatenation (message building is dropped)
+        if op == '*' and getattr(self.cur_contract, 'abstract_mul', False):
+            x, y = as_int(a), as_int(b)
+            if not (z3.is_int_value(x) or z3.is_int_value(y)):
+                # products of two symbolic integers are kept abstract (EUF); the arithmetic facts the proof needs are
+                # stated by the contract as lemmas that are proved for real multiplication (quantifier-free NIA queries)
+                return M.mul(x, y)
         if op in ('<', '<=', '>', '>=', '+', '-', '*', '/', '%'):
             x, y = as_int(a), as_int(b)
             return {'<': lambda: x < y, '<=': lambda: x <= y, '>': lambda: x > y, '>=': lambda: x >= y,
@@ -1109,6 +1120,11 @@ class Engine:
             return [(st, ('return', None))]
         outs = []
         for s, v in self.ev(n.c[0], st):
+            hook = getattr(self.cur_contract, 'at_return', None)
+            if hook is not None and self.inline_depth == 0:
+                # postconditions about locals are checked at the return statement, before the scopes are unwound
+                for name, e in hook(Ctx(self, s, entry=self.fn_entry), v):
+                    self.oblige(s, 'III', f'post:{name}', e, n.get('line'))
             outs.append((s, ('return', self.load(s, v) if isinstance(v, ElemRef) and not self.ret_is_ref else v)))
         return outs
 
@@ -1348,6 +1364,15 @@ class Engine:
                 name, e = h[0], h[1]
                 # proved in the loop-head context (instances of axioms), or - for pure arithmetic identities - with no
                 # hypotheses at all (a small quantifier-free query); then used as a fact
+                if len(h) > 2 and h[2] == 'instance':
+                    hst.facts.append(e)        # forall-elimination instance of an asserted axiom (WFView.inst)
+                    continue
+                if len(h) > 2 and h[2] == 'mul':
+                    # arithmetic identity about abstract products: proved for real multiplication, assumed for `mul`
+                    real = z3.substitute_funs(e, (M.mul, z3.Var(0, Int) * z3.Var(1, Int)))
+                    self.oblige(State(), 'L', f'loop{k}:lemma:{name}', real, line, _split=False)
+                    hst.facts.append(e)
+                    continue
                 self.oblige(State() if len(h) > 2 and h[2] == 'pure' else hst, 'L', f'loop{k}:lemma:{name}', e, line,
                             _split=False)
                 hst.facts.append(e)
@@ -1439,6 +1464,14 @@ class Engine:
                 for pn in getattr(cn, 'writes_args', ()):
                     if pn + 1 < len(x.c):
                         mark(x.c[pn + 1])
+            if x.k == 'CallExpr' and x.c and x.c[0].k in ('UnresolvedMemberExpr', 'MemberExpr', 'CXXDependentScopeMemberExpr'):
+                cn = self.contract_for_callee(x.c[0].name or '')
+                if cn is not None:
+                    for pn in getattr(cn, 'writes_args', ()):
+                        if pn + 1 < len(x.c):
+                            mark(x.c[pn + 1])
+                    if getattr(cn, 'writes_this', False) and not x.c[0].c:
+                        vars_.add('this')
             if x.k in ('CallExpr', 'CXXOperatorCallExpr') and x.c:
                 callee = x.c[0] if x.k == 'CallExpr' else (x.c[1] if len(x.c) > 1 else None)
                 if callee is not None and callee.k == 'DeclRefExpr' and st.scope.lookup(callee.name) is not None:
@@ -1509,13 +1542,19 @@ class Engine:
             st.pc.append(st.heap[oid].len >= 0)
         elif isinstance(obj, PairVec):
             tag = f'{name}@L{k}!{next(M._counter)}'
-            st.heap[oid] = PairVec(z3.Int(tag + '.len'), z3.Array(tag + '.a', Int, Int), z3.Array(tag + '.b', Int, Int))
+            st.heap[oid] = PairVec(z3.Int(tag + '.len'), z3.Array(tag + '.a', Int, obj.a.sort().range()),
+                                   z3.Array(tag + '.b', Int, obj.b.sort().range()))
             st.pc.append(st.heap[oid].len >= 0)
         elif isinstance(obj, SpecObj):
             self.havoc_obj(st, obj.trav, name + '.trav', k)
             st.heap[oid] = SpecObj(obj.trav, fresh(f'{name}.nil@L{k}', Bool), fresh(f'{name}.ns@L{k}', Str))
         elif isinstance(obj, PtrVec):
             st.heap[oid] = PtrVec(obj.len, ())
+        elif isinstance(obj, dict):
+            # plain record (e.g. the PyTreeIter object): its containers are modified, its const members are not
+            for fname, v in obj.items():
+                if isinstance(v, Ptr) and v.oid is not None:
+                    self.havoc_obj(st, v.oid, f'{name}.{fname}', k)
         else:
             raise Unsupported(f'havoc_obj {obj!r}')
 
